@@ -483,6 +483,63 @@ pub fn main(args: &[String]) {
             cases.push(rand_adf(&mut rng, n, format!("r{}_{}", n, k)));
         }
     }
+    // C04: a wide differential pre-filter. Many more ADFs than TLC could judge are run through the two counting searches and
+    // through plain stable(); every ADF on which they DISAGREE (as multisets) is added to the recorded cases and judged by TLC
+    // against the definition like any other. Agreement proves nothing and is not recorded; the filter only widens the search.
+    let mut prefiltered = 0usize;
+    if replay_specs.is_none() && props.iter().any(|p| p == "C04") {
+        let total = if thorough { 1_500_000 } else { 240_000 };
+        let nthreads = std::thread::available_parallelism().map(|x| x.get()).unwrap_or(4).min(12);
+        let found: Arc<Mutex<Vec<AdfCase>>> = Arc::new(Mutex::new(Vec::new()));
+        let mut hs = Vec::new();
+        for t in 0..nthreads {
+            let found = found.clone();
+            let seed_t = seed ^ (0xd1ff_0000 + t as u64);
+            let share = total / nthreads;
+            hs.push(std::thread::Builder::new().stack_size(64 * 1024 * 1024).spawn(move || {
+                let mut rng = StdRng::seed_from_u64(seed_t);
+                for k in 0..share {
+                    let n = if k % 3 == 2 { 4 } else { 3 };
+                    let case = if k % 2 == 0 {
+                        let vars: Vec<usize> = (0..n).collect();
+                        AdfCase { id: format!("d{}_{}_{}", n, t, k), labels: default_labels(n),
+                                  asts: (0..n).map(|_| from_tt(rand_tt(&mut rng, n), &vars, rng.gen_range(0..4))).collect() }
+                    } else {
+                        rand_adf(&mut rng, n, format!("d{}_{}_{}", n, t, k))
+                    };
+                    let text = case.text();
+                    let differs = std::panic::catch_unwind(std::panic::AssertUnwindSafe(|| {
+                        let parser = AdfParser::default();
+                        parser.parse()(&text).unwrap();
+                        let mut adf = Adf::from_parser(&parser);
+                        let mut st: Vec<Vec<Term>> = adf.stable().collect();
+                        st.sort();
+                        let mut a: Vec<Vec<Term>> = adf.stable_count_optimisation_heu_a().collect();
+                        a.sort();
+                        let mut adf2 = Adf::from_parser(&parser);
+                        let mut b: Vec<Vec<Term>> = adf2.stable_count_optimisation_heu_b().collect();
+                        b.sort();
+                        a != st || b != st
+                    }))
+                    .unwrap_or(true);
+                    if differs {
+                        let mut f = found.lock().unwrap();
+                        if f.len() < 300 {
+                            f.push(case);
+                        }
+                    }
+                }
+            }).unwrap());
+        }
+        for h in hs {
+            let _ = h.join();
+        }
+        let mut f = found.lock().unwrap();
+        prefiltered = f.len();
+        f.sort_by(|a, b| a.id.cmp(&b.id));
+        cases.extend(f.drain(..));
+        eprintln!("sem: differential pre-filter over {} ADFs flagged {}", total, prefiltered);
+    }
     let disabled = Mutex::new(Vec::new());
     let mut f = std::io::BufWriter::new(std::fs::File::create(&out).expect("cannot create out file"));
     // parallel over cases with a small pool; output order is by case index (deterministic)
@@ -516,6 +573,9 @@ pub fn main(args: &[String]) {
         if let Some(v) = v {
             writeln!(f, "{}", v).unwrap();
         }
+    }
+    if props.iter().any(|p| p == "C04") {
+        writeln!(f, "{}", json!({"kind": "stat", "id": "prefilter", "prefilter_adfs": if thorough { 1_500_000 } else { 240_000 }, "flagged": prefiltered})).unwrap();
     }
     f.flush().unwrap();
     eprintln!("sem: {} cases, {} timeouts", cases.len(), TIMEOUTS.load(Ordering::SeqCst));
